@@ -237,6 +237,7 @@ func (d *Dispatcher) run(it provider.AlertIterator) {
 						ctx = d.propagator.Extract(ctx, propagation.MapCarrier(alert.Header))
 					}
 
+					verifYield("worker:received")
 					d.routeAlert(ctx, alert.Data)
 
 				case <-d.ctx.Done():
@@ -307,6 +308,7 @@ func (d *Dispatcher) doMaintenance() {
 			ag := el.(*aggrGroup)
 			if ag.destroyed() {
 				ag.stop()
+				verifYield("doMaintenance:beforeCompareAndDelete")
 				deleted := d.routeGroupsSlice[i].groups.CompareAndDelete(ag.fingerprint(), ag)
 				if deleted {
 					// TODO(ultrotter, siavash):
@@ -478,6 +480,7 @@ func (d *Dispatcher) groupAlert(ctx context.Context, alert *alert.Alert, route *
 	fp := groupLabels.Fingerprint()
 
 	el, loaded := d.routeGroupsSlice[route.Idx].groups.Load(fp)
+	verifYield("groupAlert:loaded")
 	if loaded {
 		ag := el.(*aggrGroup)
 		// Try to insert into the aggrgroup.
@@ -519,6 +522,7 @@ func (d *Dispatcher) groupAlert(ctx context.Context, alert *alert.Alert, route *
 	for {
 		if loaded {
 			// Try to store the new group in the map. If another goroutine has already created the same group, use the existing one.
+			verifYield("groupAlert:beforeCAS")
 			swapped := d.routeGroupsSlice[route.Idx].groups.CompareAndSwap(fp, el, ag)
 			if swapped {
 				// Since we swapped the new group in, we need to cancel the old one,
@@ -529,6 +533,7 @@ func (d *Dispatcher) groupAlert(ctx context.Context, alert *alert.Alert, route *
 			}
 			loaded = false
 		} else {
+			verifYield("groupAlert:beforeLoadOrStore")
 			el, loaded = d.routeGroupsSlice[route.Idx].groups.LoadOrStore(fp, ag)
 			if !loaded {
 				d.routeGroupsSlice[route.Idx].groupsLen.Add(1)
